@@ -1,9 +1,13 @@
 #!/usr/bin/env python3
-"""writes seeded/RESULTS.md from work/seeded_results.json (last tools/run_seeded.py results) and the meta.json files"""
+"""writes seeded/RESULTS.md from work/seeded_results_iso.json (tools/iso_seeded.py; falls back to work/seeded_results.json
+of tools/run_seeded.py) and the meta.json files"""
 import json, os, glob
-rows = {r[0]: r for r in json.load(open("/verif/work/seeded_results.json"))}
+src = "/verif/work/seeded_results_iso.json" if os.path.exists("/verif/work/seeded_results_iso.json") else "/verif/work/seeded_results.json"
+rows = {r[0]: r for r in json.load(open(src))}
 out = ["# Seeded changes: which check caught which change", "",
-       "Produced by `tools/run_seeded.py` (apply the change to /repo, run `./check <ID>` quick tier, undo).",
+       "Produced by `tools/iso_seeded.py`: every change is applied to a scratch worktree of /repo's HEAD and the quick tier of",
+       "`./check <ID>` (the property the change was written against) runs in an isolated copy of /verif against that worktree;",
+       "`tools/run_seeded.py` does the same in place (apply to /repo, run, undo). Rows are the latest run of each change.",
        "`caught` = VIOLATION with a concrete replay (input / history / schedule / crash point) found on the implementation;",
        "`caught(no-input)` = only `no-failing-input-found` (proof or correspondence broken); `MISSED` = the check stayed quiet.", "",
        "| change | round | verdict | replay(s) | what was changed (first words of the author's summary) |", "|---|---|---|---|---|"]
